@@ -24,7 +24,7 @@ from __future__ import annotations
 
 import ast
 
-from ..astutil import bind_args, callee_name, calls, is_name, is_self_attr, text, unwrap_await
+from ..astutil import call_recv, bind_args, callee_name, calls, is_name, is_self_attr, text, unwrap_await
 from ..core import Result
 from ..model import AnchorMissing, Repo, walk_no_nested
 from . import c01
@@ -250,8 +250,8 @@ def run(repo: Repo) -> Result:
                         and isinstance(r, ast.Call)
                         and callee_name(r) == up_name
                         and isinstance(r.func, ast.Attribute)
-                        and isinstance(r.func.value, ast.Name)
-                        and r.func.value.id in read_vars
+                        and isinstance(call_recv(r), ast.Name)
+                        and call_recv(r).id in read_vars
                     ):
                         # the body must reload + store + return
                         gate_ok = any(isinstance(x, ast.Return) for x in st.body)
